@@ -38,7 +38,7 @@ from c07_gates import kids, strip, loc_off, qual, callee_name, int_value        
 
 ROOT = os.path.dirname(os.path.dirname(os.path.abspath(__file__)))
 FILES = ["adf/ADF_interface.c", "adf/ADF_internals.c", "cgns_io.c"]
-VERSION = "7"
+VERSION = "9"
 
 STATUS_PARAM_NAMES = {"error_return", "err", "error_return_input", "error_ret", "ierr"}
 # system calls (the primitives).  kind 'neg': < 0 is the error; 'count': -1 or a short count is the error
@@ -88,21 +88,22 @@ RANK = {"Return": 0, "Flow": 1, "Handled": 2, "Ignored": 3, "Overwritten": 4, "U
 # ------------------------------------------------------------------------------------------------ abstract state
 class St:
     """pend: loc -> frozenset((site, tested)); err: locs known to hold an error value"""
-    __slots__ = ("pend", "err")
+    __slots__ = ("pend", "err", "dead")
 
-    def __init__(self, pend=None, err=None):
+    def __init__(self, pend=None, err=None, dead=False):
         self.pend = dict(pend or {})
         self.err = set(err or ())
+        self.dead = dead                      # control cannot reach this point (after exit / abort / __assert_fail)
 
     def copy(self):
-        return St(self.pend, self.err)
+        return St(self.pend, self.err, self.dead)
 
     def key(self):
         return (tuple(sorted((k, tuple(sorted(v))) for k, v in self.pend.items() if v)), tuple(sorted(self.err)))
 
 
 def merge(*sts):
-    sts = [s for s in sts if s is not None]
+    sts = [s for s in sts if s is not None and not s.dead]
     if not sts:
         return None
     out = sts[0].copy()
@@ -139,7 +140,7 @@ class Walker:
 
     def line(self, n):
         o = self.off(n)
-        return bisect.bisect_right(self.lines, o) if o is not None else 0
+        return bisect.bisect_left(self.lines, o) + 1 if o is not None else 0
 
     # ---- sites
     def site(self, call, callee, deliv, kind):
@@ -281,11 +282,18 @@ class Walker:
             if L is not None and st.pend.get(L):
                 self.lose(st, L, "Overwritten", "`%s` modified by %s at line %d" % (L, e.get("opcode"), self.line(e)))
             return ("other",)
+        if k == "StmtExpr":
+            # GNU statement expression (glibc's assert): run the statements
+            new = st
+            for c in kids(e):
+                new = self.stmt(c, new if new is None else new.copy()) if c.get("kind") == "CompoundStmt" else new
+            self.assign_state(st, new)
+            return ("other",)
         if k == "ConditionalOperator":
             c, a, b = kids(e)
             t, f = self.cond(c, st)
-            da = self.ev(a, t) if t is not None else ("other",)
-            db = self.ev(b, f) if f is not None else ("other",)
+            da = self.ev(a, t) if (t is not None and not t.dead) else ("other",)
+            db = self.ev(b, f) if (f is not None and not f.dead) else ("other",)
             for d in (da, db):
                 if d[0] == "call":
                     self.outcome(d[1], "Unparsed", "call in an arm of ?:")
@@ -305,8 +313,9 @@ class Walker:
         if new is None:
             st.pend = {}
             st.err = set()
+            st.dead = True
         else:
-            st.pend, st.err = dict(new.pend), set(new.err)
+            st.pend, st.err, st.dead = dict(new.pend), set(new.err), new.dead
 
     def ok_consts(self, L):
         """the constants that mean success for the statuses living in L (ADF: NO_ERROR = -1; cgio / system calls: 0)"""
@@ -387,8 +396,6 @@ class Walker:
             st.err.discard("last_err")
         if name in NORETURN:
             self.assign_state(st, None)
-            st.pend["$dead"] = frozenset()
-            self.dead = True
             return ("other",)
         if not tracked:
             return ("other",)
@@ -491,7 +498,7 @@ class Walker:
 
     def cond(self, e, st):
         """-> (state when true, state when false)"""
-        if st is None:
+        if st is None or st.dead:
             return None, None
         e0 = e
         while e0.get("kind") in ("ParenExpr", "ImplicitCastExpr") and kids(e0):
@@ -573,6 +580,8 @@ class Walker:
 
     # ---- statements.  returns the state after the statement, None when control cannot fall through
     def stmt(self, s, st):
+        if st is not None and st.dead:
+            st = None
         if st is None and s.get("kind") not in ("LabelStmt", "CompoundStmt", "CaseStmt", "DefaultStmt", "IfStmt", "ForStmt",
                                               "WhileStmt", "DoStmt", "SwitchStmt"):
             return None
@@ -652,15 +661,11 @@ class Walker:
             self.ret_stmt(s, st)
             return None
         # expression statement
-        self.dead = False
         d = self.ev(s, st)
         if d[0] == "call":
             self.sites[d[1]]["loc"] = "(discarded)"
             st.pend["$d%d" % self.order.index(d[1])] = frozenset([(d[1], False)])
-        if self.dead:
-            self.dead = False
-            return None
-        return st
+        return None if st.dead else st
 
     def loop(self, s, st):
         k = s["kind"]
@@ -730,16 +735,29 @@ class Walker:
 
     def run(self):
         body = [c for c in kids(self.fn) if c.get("kind") == "CompoundStmt"][0]
-        self.dead = False
         st = self.stmt(body, St())
-        if st is not None:
-            end_line = bisect.bisect_right(self.lines, loc_off((self.fn.get("range") or {}).get("end"))[0])
+        if st is not None and not st.dead:
+            end_line = bisect.bisect_left(self.lines, loc_off((self.fn.get("range") or {}).get("end"))[0]) + 1
             if self.style == "ptr":
                 self.finish(st, self.loc_err(st, self.own), self.own, end_line)
             else:
                 self.finish(st, False, None, end_line)
         for ln in self.backward:
             self.unparsed(None, "backward goto at line %d" % ln)
+        seen_off = {k[0] for k in self.order}
+
+        def sweep(n):
+            if n.get("kind") == "CallExpr":
+                name = callee_name(n)
+                proto = self.protos.get(name) if name else None
+                tracked = name is None or name in self.defined or (proto and proto["status"] is not None) or name in SYSCALLS or name.startswith("ADFH_")
+                if tracked and name and name not in self.defined and proto and proto["status"] is None and proto["ret"] == "void":
+                    tracked = False                      # no status and not ours: not a row
+                if tracked and name not in NORETURN and name != "set_error" and self.off(n) not in seen_off:
+                    self.unparsed(n, "call of %s at line %d is not reached by the data-flow walk" % (name, self.line(n)))
+            for c in kids(n):
+                sweep(c)
+        sweep(body)
         rows = []
         for k in self.order:
             s = self.sites[k]
